@@ -65,6 +65,7 @@ package age
 //@   ensures#mac err == nil ==> $eqcalls == old($eqcalls)+1 && $eqr && $eqb == bytes(hdr.MAC) && $eqa == hmac256(sub(hkdfstream(bytes(fileKey), "", "header"), 0, 32), hdrbytes(hdr))   [C03 C05]
 //@   ensures#reader err == nil ==> typeis(rd, "*filippo.io/age/internal/stream.Reader") && cast(rd, "filippo.io/age/internal/stream.Reader").src == payload && cast(rd, "filippo.io/age/internal/stream.Reader").a.$key == sub(hkdfstream(bytes(fileKey), bytes(nonce), "payload"), 0, 32)   [C01 C02 C05]
 //@   call io.ReadFull#1 requires arg0 == payload && same(arg1, nonce) && len(nonce) == 16       [C02 C05]
+//@   call io.ReadFull#1 requires !isnil(fileKey) && $eqcalls == old($eqcalls) + 1 && $eqr       [C03 C04]
 //@   call hmac.Equal#1 requires same(arg0, mac) && same(arg1, hdr.MAC)                          [C03]
 //@   call streamKey#1 requires same(arg0, fileKey) && same(arg1, nonce)                         [C02 C05]
 //@   ensures#wrapparse lasterr("Parse",1) != nil ==> err != nil && wraps(err, lasterr("Parse",1))            [C13 C14]
@@ -142,7 +143,7 @@ package age
 
 //@ func (*ScryptRecipient).SetWorkFactor(r, logN)
 //@   requires r != nil && 1 <= logN && logN <= 30
-//@   ensures#set r.workFactor == logN && r.password == old(r.password)                                                               [C10]
+//@   ensures#set r.workFactor == logN && r.password == old(r.password)                                                               [C05 C10]
 //@   modifies r.workFactor
 
 //@ func (*ScryptIdentity).SetMaxWorkFactor(i, logN)
@@ -255,7 +256,7 @@ package age
 //@ func ParseX25519Recipient(s) (r, err)
 //@   ensures#accepts (lasterr("bech32.Decode",1) == nil && lastret("bech32.Decode",1,0) == "age" && len(lastret("bech32.Decode",1,1)) == 32) ==> err == nil   [C05 C09]
 //@   call bech32.Decode#1 requires arg0 == s                                                                            [C09]
-//@   ensures#canon err == nil ==> r != nil && len(r.theirPublicKey) == 32 && hasprefix(s, "age") && at(s, 3) == 49 && (forall j in 0..len(s) :: 33 <= at(s, j) && at(s, j) <= 126) && (forall j in 4..len(s) :: at(s, j) != 49)   [C09 C17]
+//@   ensures#canon err == nil ==> r != nil && len(r.theirPublicKey) == 32 && hasprefix(s, "age") && at(s, 3) == 49 && (forall j in 0..len(s) :: 33 <= at(s, j) && at(s, j) <= 126) && (forall j in 4..len(s) :: at(s, j) != 49)   [C09 C17 C18]
 //@   ensures#nil err != nil ==> r == nil                                                                                [C09 C14]
 //@   fresh r when err == nil
 //@   modifies nothing
